@@ -453,6 +453,13 @@ func runScenario(sc scenario) (out outcome) {
 	if sc.Offline {
 		opt.InitialState = "OFFLINE"
 	}
+	{
+		for i := 0; i < sc.Greet; i++ {
+			p := payload(sc.Seed, "greeting", i, 1+(i*37+int(sc.Seed))%90, false)
+			opt.DialGreeting = append(opt.DialGreeting, p)
+			d.expected = append(d.expected, p...)
+		}
+	}
 	if sc.SegMode != 0 {
 		opt.Split = func(f []byte, crcOff int) [][]byte {
 			if len(f) < 2 || simRnd.Intn(2) == 0 {
